@@ -240,6 +240,59 @@ def jobs(tier):
     bt("btree.search.h1", "h_bt_search", SRCH, ["k"], 1)
     bt("btree.check.h1", "h_bt_check", ["btreeCheck", "btreeCheck0"], [], 1)
     bt("canary.btree.search", "h_bt_search", SRCH, ["k"], 1, kind="canary", extra=["-DCANARY_bt_search"])
+    # node steps (split, unsplit, rotations) against the in-order-sequence contract, t a constant of the job
+    BS = "btree_step_h.c"
+    STEPS = (("split", "btreeSplitChild"), ("unsplit", "btreeUnsplitChild"), ("rotdown", "btreeRotateDown"), ("rotup", "btreeRotateUp"))
+    SIN = ["x_k", "x_e", "x_b", "x_n", "x_leaf", "y_k", "y_e", "y_b", "y_n", "y_leaf", "z_k", "z_e", "z_b", "z_n", "z_leaf", "n", "i", "zn", "g"]
+    for t in ((2, 3) if not thorough else (2, 3, 4)):
+        for nm, fn in STEPS:
+            J("btree.step.%s.t%d" % (nm, t), BS, "h_bt_" + nm, [fn], SIN,
+              cls="B", bound="t = %d; every key count the call sites allow, every position, any keys/entries/subtrees" % t, native=True, checks=BCHK,
+              defs=["-DBT_T=%d" % t], cbmc=["--unwind", str(2 * t + 3), "--unwinding-assertions"], timeout=1800 if thorough else 600)
+    # t = 16 is store.c's MixedBTreeT, the only t the compiler uses: 496 (count, position) cases per step are too many for
+    # one job; a sample of cases (first / middle / last position, smallest / largest counts), one case per job
+    T16 = {"split": [(0, 0, 0), (30, 0, 0), (30, 30, 0), (30, 15, 0), (15, 7, 0)],
+           "unsplit": [(1, 0, 0), (31, 0, 0), (31, 30, 0), (31, 15, 0)],
+           "rotdown": [(0, 0, 16), (0, 0, 31), (0, 30, 16), (0, 30, 31), (0, 15, 20)],
+           "rotup": [(0, 0, 16), (0, 0, 31), (0, 30, 16), (0, 30, 31), (0, 15, 20)]}
+    for nm, fn in STEPS:
+        for (cn, ci, cz) in (T16[nm] if thorough else T16[nm][1:3]):
+            J("btree.step.%s.t16.n%d_i%d_zn%d" % (nm, cn, ci, cz), BS, "h_bt_" + nm, [fn], SIN, cls="B", native=True, checks=BCHK,
+              bound="t = 16, ONE case: x has %s keys, position %d, donor sibling has %s keys; any keys/entries/subtrees" % (cn or "any number of", ci, cz or "-"),
+              defs=["-DBT_T=16", "-DBT_ONLY_N=%d" % cn, "-DBT_ONLY_I=%d" % ci, "-DBT_ONLY_ZN=%d" % cz],
+              cbmc=["--unwind", "35", "--unwinding-assertions"], timeout=900)
+    for nm in ("split", "unsplit", "rotup"):
+        J("canary.btree.step." + nm, BS, "h_bt_" + nm, [], ["i", "g"], cls="B", kind="canary", checks=BCHK,
+          defs=["-DBT_T=2", "-DCANARY_bt_" + nm], cbmc=["--unwind", "16", "--unwinding-assertions"], timeout=600)
+    import itertools
+    shapes2 = [(r,) + cs for r in (1, 2, 3) for cs in itertools.product((1, 2, 3), repeat=r + 1)]
+    QUICK2 = {(1, 1, 1), (1, 3, 3), (1, 1, 3), (1, 3, 1), (2, 1, 3, 2), (3, 1, 1, 1, 1)}
+    # the fullest shapes (root with 3 keys over more than 8 keys in the leaves) give no result in 600-900 s: scheduled only
+    # with VERIF_PROBE_UNDECIDED=1; the split of a full root / full child and the merges they exercise are covered by
+    # the node-step jobs above and by shapes with a 1- or 2-key root
+    import os
+    if os.environ.get("VERIF_PROBE_UNDECIDED") != "1":
+        shapes2 = [sh for sh in shapes2 if not (sh[0] == 3 and sum(sh[1:]) > 8)]
+    # whole insert / delete on height-2 trees, ONE JOB PER SHAPE (key count of every node a constant of the job, keys and
+    # entries symbolic): structural decisions depend on key counts only, so the verifier walks concrete pointers;
+    # the union of the 117 shapes is every well-formed tree of height 2 for t = 2.  quick: 6 shapes; thorough: 51 (see below).
+    for sh in shapes2:
+        if not thorough and sh not in QUICK2:
+            continue
+        tag = "".join(map(str, sh))
+        bt("btree.insert.h2.shape%s" % tag, "h_bt_insert", ["btreeInsertX", "btreeSplitChild"], ["k", "e"], 2,
+           extra=["-DBT_SHAPE=" + ",".join(map(str, sh))], timeout=900 if not thorough else 2400)
+    # delete, one level, MODULAR over btreeDelete0's recursion: the real step on the root of an arbitrary height-2 tree,
+    # re-entries (on leaves) bound to a model whose precondition is an obligation
+    DEL_SPLICE = {"btree.c": {"_rename_def": {"btreeDelete0": "btreeDelete0__real"}}}
+    for sh in shapes2:
+        if not thorough and sh not in QUICK2:
+            continue
+        bt("btree.delete.h2.shape%s.step_modulo_recursion" % "".join(map(str, sh)), "h_bt_delete",
+           ["btreeDelete0", "btreeUnsplitChild", "btreeRotateUp", "btreeRotateDown", "btreeSearchMin", "btreeSearchMax"],
+           ["k"], 2, extra=["-DBT_MODEL_DELETE0", "-DBT_SHAPE=" + ",".join(map(str, sh))], timeout=900 if not thorough else 2400)
+        js[-1]["splice"] = DEL_SPLICE
+        js[-1]["assumed"] = ["re-entries of btreeDelete0 (on leaves) replaced by a model of its contract: removes one pair with key k from a leaf that has more than t-1 keys; the precondition is an obligation at every re-entry; the real leaf case is checked in btree.delete.h1"]
     if thorough:
         # minutes per job even for a single leaf (the unit walks nodes by pointer and recurses without a leaf test on
         # the key-absent path, which the verifier must explore): not in the quick tier
